@@ -57,17 +57,24 @@ class History:
         self.L, self.R = L, R
         self.ops = []
         self.force_scales = force_scales
+        self.interp = None          # "mc-cnn" | "sgm": the validation steps of this history fill occlusions / mismatches
         rows, cols = L.sizes["row"], L.sizes["col"]
         self.metaL = build.make_metadata(rows, cols, disp=(-2, 2))
         self.metaR = build.make_metadata(rows, cols, disp=None)
 
     def _pipe_json(self, names, bad):
-        return [{"kind": k, "sfx": s, "ok": (bad is None or i != bad)} for i, (_, k, s) in enumerate(names)]
+        return [{"kind": k, "sfx": s, "ok": (bad is None or i != bad), "fill": bool(self.interp and k == "validation")}
+                for i, (_, k, s) in enumerate(names)]
+
+    def _overrides(self, kinds):
+        if not self.interp:
+            return None
+        return {i: {"interpolated_disparity": self.interp} for i, k in enumerate(kinds) if k == "validation"}
 
     def check(self, kinds, first_suffix=False, bad=None, suffix_at=()):
         from transitions import MachineError
         from pandora.check_configuration import check_pipeline_section
-        cfg, names = build.pipeline_cfg(kinds, first_suffix=first_suffix, bad=bad, suffix_at=suffix_at)
+        cfg, names = build.pipeline_cfg(kinds, first_suffix=first_suffix, bad=bad, suffix_at=suffix_at, overrides=self._overrides(kinds))
         idx_of = {n: i + 1 for i, (n, _, _) in enumerate(names)}
         checked = None
         with MachineTracer(self.machine) as tr:
@@ -88,7 +95,7 @@ class History:
     def run(self, kinds, checked_cfg, first_suffix=False, suffix_at=()):
         import pandora
         from pandora import check_configuration
-        cfg, names = build.pipeline_cfg(kinds, first_suffix=first_suffix, suffix_at=suffix_at)
+        cfg, names = build.pipeline_cfg(kinds, first_suffix=first_suffix, suffix_at=suffix_at, overrides=self._overrides(kinds))
         if checked_cfg is None:
             checked_cfg = cfg
         idx_of = {n: i + 1 for i, (n, _, _) in enumerate(names)}
@@ -111,9 +118,14 @@ class History:
             finally:
                 pandora.read_multiscale_params = orig_rmp
             ns = int(self.machine.num_scales)
-            evs = [{"ev": "RunCb", "idx": idx_of.get(e["name"], 0), "kind": e["kind"], "side": e["side"],
-                    "scale": int(e["cscale"]) if e["cscale"] is not None else -1,
-                    "rows": e["rows"], "cols": e["cols"]} for e in tr.events if e["ev"] == "RunCb"]
+            evs = []
+            for e in tr.events:
+                sc = int(e["cscale"]) if e.get("cscale") is not None else -1
+                if e["ev"] == "RunCb":
+                    evs.append({"ev": "RunCb", "idx": idx_of.get(e["name"], 0), "kind": e["kind"], "side": e["side"],
+                                "scale": sc, "rows": e["rows"], "cols": e["cols"]})
+                elif e["ev"] == "RunSub":
+                    evs.append({"ev": "RunSub", "idx": idx_of.get(e["name"], 0), "what": e["what"], "side": e["side"], "scale": sc})
         op = {"op": "run", "pipeline": self._pipe_json(names, None), "ns": ns, "events": evs + [end],
               "post": project_machine(self.machine), "names": [n for n, _, _ in names]}
         self.ops.append(op)
@@ -143,6 +155,9 @@ def classify(trace, failed):
             f["observed_err"] = ev["err"]
         if ev["ev"] == "RunCb":
             f["stuck_kind"] = ev["kind"]
+            f["stuck_side"] = ev["side"]
+        if ev["ev"] == "RunSub":
+            f["stuck_kind"] = "validation:" + ev["what"]
             f["stuck_side"] = ev["side"]
     f["has_multiscale"] = "multiscale" in kinds
     f["has_validation"] = "validation" in kinds
@@ -230,7 +245,9 @@ def run(tier):
     # vacuity gates: the interesting states must be reachable in the model
     v = chk.tlc("MC_Machine", "MC_Machine_vac.cfg", label="vac1", include=[tables], workers=8, expect_ok=False)
     v2 = chk.tlc("MC_Machine", "MC_Machine_vac2.cfg", label="vac2", include=[tables], workers=4, expect_ok=False)
-    if not res.invariant_violations and ("NeverRan" not in v.invariant_violations or "NeverRejected" not in v2.invariant_violations):
+    v3 = chk.tlc("MC_Machine", "MC_Machine_vac3.cfg", label="vac3", include=[tables], workers=8, expect_ok=False)
+    if not res.invariant_violations and ("NeverRan" not in v.invariant_violations or "NeverRejected" not in v2.invariant_violations
+                                         or "NeverFilled" not in v3.invariant_violations):
         raise MachineryFailure("vacuity gate: a multi-scale run with validation / a sequencing rejection is not reachable in the model")
     chk.extra["model_coverage"] = res.coverage
     # unbounded: Apalache discharges an INDUCTIVE invariant of the typed abstraction (any pipeline length, any history length)
@@ -259,6 +276,8 @@ def run(tier):
         n += 1
         for fs in ([False, True] if (force and shape in ("crcr", "cr") and "multiscale" in p) else [False]):
             h = History(f"h{n}{'f' if fs else ''}", L, R, force_scales=fs)
+            if shape in ("crcr", "cr", "other_machine", "sfx_one") and "validation" in (p if not isinstance(p[0], tuple) else ()):
+                h.interp = [None, "mc-cnn", "sgm"][n % 3]
             if shape == "cc":
                 h.check(p, first_suffix, bad)
                 h.check(p, first_suffix, bad)
@@ -285,6 +304,7 @@ def run(tier):
                     h.run(p, c, suffix_at=(bad,))
             elif shape == "sfx_one_other":
                 other = History("x", L, R)
+                other.interp = h.interp
                 c = other.check(p, suffix_at=(bad,))
                 if c is None:
                     continue
@@ -312,6 +332,7 @@ def run(tier):
                     h.run(b, c)
             elif shape == "other_machine":
                 other = History("x", L, R)
+                other.interp = h.interp
                 c = other.check(p)
                 if c is None:
                     continue
